@@ -865,6 +865,10 @@ func (c09) Exec(seed int64, i int, tier string) Record {
 		rec.Tags = append(rec.Tags, "mode:agg-operand")
 		return rec
 	}
+	if i%20 == 3 && (tier != "thorough" || i >= c09ExCount()) {
+		// NaN / ±Inf / -0 members under the laws (b11_helpers.go)
+		return c09NonFiniteCase(r)
+	}
 	if tier == "thorough" {
 		if i < c09ExCount() {
 			return c09Exhaustive(i, r)
